@@ -529,6 +529,10 @@ def inline_call(ex, st, fi, bound, node):
         st.frames.append(dict(bound))
         nframes = len(st.frames)
         outs = sub.block(st, fi.node.body)
+        if sub.partial_touched:
+            # an inlined callee evaluated in total mode met an operation that can fail: the caller's
+            # merge of branches (try_merge) must not treat the expression as total
+            ex.partial_touched = True
         res = []
         for st1, o in outs:
             assert len(st1.frames) == nframes, "frame stack corrupted"
